@@ -28,6 +28,8 @@ var vkKeyAlphabet = []string{
 	"ads.test", "ADS.Test.", "*.cdn.test", "test", "sub.ads.test.",
 	"a#b.test", "#hash.test", "two words.test", "tab\there.test", "trail.test #note", " lead.test",
 	"x\\.y.test", "*.a#b.test", "0.0.0.0 hosts.test", ".", "*.",
+	// longer than any domain name can be and than one line the list loader reads (64 KiB)
+	strings.Repeat("a", 70000) + ".test",
 }
 
 // vkKeyProbes: every key, plus the names a lossy write/read of the list file could turn it into.
@@ -172,7 +174,15 @@ func TestVerifC18Keys(t *testing.T) {
 						}
 					}
 				}
+				long := false
+				for _, o := range h {
+					for _, k := range o.Keys {
+						long = long || len(k) > 1024
+					}
+				}
 				switch {
+				case long:
+					cls = "overlong-key"
 				case strings.Contains(last, "#"):
 					cls = "hash-in-key"
 				case strings.ContainsAny(last, " \t"):
